@@ -1,6 +1,7 @@
 import PyaModel.Spec.D14
 import PyaModel.Spec.Mem
 import PyaModel.Proofs.C14
+import PyaModel.Generated.ClassTable
 /-!
 # Props/C14 — the value algebra: uniting, equality, hashing, substitution
 
@@ -18,6 +19,7 @@ Side-condition predicates defined in Proofs/C14.lean:
 * `Ty.isUnion t` — `t` is a `MultiValuedValue`;
 * `Ty.keq a b := Ty.hashEq a b && Ty.beq a b` — "the same dict key": the relation under which
   `unite_values` de-duplicates and `MultiValuedValue.__eq__` compares member sets;
+* `keyNodup l` — no two entries of the list are the same dict key (`Ty.keq`);
 * `Ty.hasZeroLit t` — `t` contains a literal with Python hash 0 (`0`, `False`, `''`, `b''`): such a
   `KnownValue(v)` hashes like `TypedValue(type(v))` (the modelled systematic collision).
 -/
@@ -542,5 +544,17 @@ example : Ty.beq (subst c14exM2 (unite [c14exSa, c14exSb])) (unite [subst c14exM
     (by simp [c14exM2, c14exSa, subst, substL, mkUnion, TvMap.get, flatten1, Ty.hasUnhashable,
           Ty.hasUnhashableL, Obj.hashable])
     (by simp [c14exM2, c14exSb, subst, Ty.hasUnhashable])
+
+
+/-- the accepts-operand statements on the live class table -/
+theorem c14_liveTable_ok : tableOk liveTable = true := by decide +kernel
+example : ([c14exU, c14exF] : List Ty).flatMap flatten1 = [.typed C.int, .typed C.str, .typed C.float] := rfl
+theorem c14ex_keyNodup : keyNodup ([c14exU, c14exF].flatMap flatten1) = true := by
+  simp [c14exU, c14exF, flatten1, keyNodup, Ty.keq, Ty.hashEq, C.int, C.str, C.float]
+example : ∀ m ∈ flatten1 c14exU, m.wfR liveTable = true := by decide +kernel
+example : ca liveTable false (unite [c14exU, c14exF]) c14exU = true :=
+  unite_accepts_partial liveTable c14_liveTable_ok false _ _ (by simp) c14ex_keyNodup (by decide +kernel)
+example : ca liveTable true (.union [.typed C.int, .known (.list [.int 1]), .typed C.str]) (.known (.list [.int 1])) = true :=
+  union_accepts_member liveTable c14_liveTable_ok true _ _ (by simp) (by decide +kernel)
 
 end Pya
